@@ -521,9 +521,6 @@ def _vcs_commit_effects(a, st, outcome):
 c.effects = _vcs_commit_effects
 
 
-for _k, _c in list(REG.items()):
-    if _k.startswith("bumpver.vcs.") or _k.startswith("bumpver.hooks."):
-        _c.assume_at_call_sites = False
 
 
 # --------------------------------------------------------------------------- get_vcs_api / get_tags / ls_tags
@@ -549,7 +546,6 @@ c = REG.new("bumpver.vcs.get_vcs_api")
 c.returns(KVcsApi())
 c.ensures("C10.get_vcs_api.only_probes", lambda a, res, cx: _probe_only(cx))
 c.exsures(OSError, "C10.get_vcs_api.oserror_only_probes", lambda a, exc, cx: _probe_only(cx))
-c.assume_at_call_sites = False
 
 
 def _tag_line_clause(a, res, cx):
@@ -589,8 +585,7 @@ for _nm in ("ls_tags", "ls_tags_branch"):
     c.ensures(f"C09+C10.{_nm}.issues_only_that_listing_command", lambda a, res, cx, _nm=_nm: _vcs_names(cx) == [_nm])
     c.exsures(sp.CalledProcessError)
     c.exsures(OSError)
-    c.assume_at_call_sites = False
-
+    
 
 def _get_tags_clause(a, res, cx, raised=None):
     steps = [e for e in cx.new if e[0] == "VcsStep"]
@@ -634,7 +629,6 @@ c.param("scope", KEnum(list(config.TagScope)))
 c.returns(KSeq("str"))
 c.ensures("C09+C10.get_tags.fetch_only_if_requested_listing_by_scope", lambda a, res, cx: _get_tags_clause(a, res, cx))
 c.exsures(sp.CalledProcessError, "C10.get_tags.failure_keeps_fetch_and_scope_rules", lambda a, exc, cx: _get_tags_clause(a, None, cx, raised=True))
-c.assume_at_call_sites = False
 
 
 def _get_tags_effects(a, st, outcome):
@@ -642,3 +636,19 @@ def _get_tags_effects(a, st, outcome):
 
 
 c.effects = _get_tags_effects
+
+
+# every clause above talks about the callee's own effect log: proved on the bodies, not assumed by callers
+for _k, _c in list(REG.items()):
+    if _k.startswith("bumpver.vcs.") or _k.startswith("bumpver.hooks."):
+        for _cl in _c.ensures_:
+            _cl.internal = True
+        for _lst in _c.exsures_.values():
+            for _cl in _lst:
+                _cl.internal = True
+
+# what callers may assume: the exit status of the aborting paths
+_exit1 = lambda a, exc, cx: v_eq(exc.args[0], 1)
+REG["bumpver.hooks.run"].exsures(SystemExit, "C10.hooks.run.exit_status_1", _exit1)
+REG["bumpver.vcs.assert_not_dirty"].exsures(SystemExit, "C11.assert_not_dirty.exit_status_1", _exit1)
+REG["bumpver.vcs.commit"].exsures(SystemExit, "C10.vcs.commit.exit_status_1", _exit1)
